@@ -8,7 +8,8 @@ EXTENDS Graph
 CONSTANTS MaxT, MaxT2, MaxH
 VARIABLES pool, hist, last
 Srcs == {"a", "b"}
-TripleU == {<<s, r, t>> : s \in Srcs, r \in {":instance", ":r"}, t \in {"a", "b", "x", NULL}}
+\* roles are given with or without their colon
+TripleU == {<<s, r, t>> : s \in Srcs, r \in {":instance", ":r", "r"}, t \in {"a", "x", NULL}}
 Lists == UNION {[1..n -> TripleU] : n \in 0..MaxT}
 Tops == {NULL, "a", "b", "z"}
 Tag(n) == <<Mk("align", ToString(n))>>
@@ -32,6 +33,7 @@ Next == New \/ \E act \in Acts : Do(act)
 Spec == Init /\ [][Next]_<<pool, hist, last>>
 View == <<pool, last, Len(hist)>>
 
+RolesHaveColon == \A i \in DOMAIN pool : \A k \in DOMAIN pool[i].tr : StartsWith(pool[i].tr[k][2], ":")
 AllPartition == \A i \in DOMAIN pool : Partition(pool[i])
 AllImplicitTop == \A i \in DOMAIN pool : ImplicitTop(pool[i])
 EdgesAreVariableTargets == \A i \in DOMAIN pool : \A k \in DOMAIN pool[i].tr :
